@@ -302,8 +302,8 @@ def run(ctx, res):
         st = d['bash']
         res.evaluations += 1
         replay = dict(grammar=texts[i].decode('latin-1'), family=cases[i][0], impl={k: v[:3000] for k, v in st.items()})
-        if 'CRASH' in st or ('PANIC' in st and st['PANIC'].split(' ')[0] in ('min', 'subraw')):
-            res.violations.append(report.Violation('minimisation crashed: %s' % st.get('PANIC', st.get('CRASH')),
+        if 'CRASH' in st or 'PANIC' in st:
+            res.violations.append(report.Violation('the library crashed on a generated grammar (stage %s)' % st.get('PANIC', st.get('CRASH')),
                                                    dict(replay, kind='crash')))
             continue
         found = []
